@@ -63,6 +63,14 @@ func Verif_C09_smoothing() {
 		if d0 >= 1 {
 			verifAssert(d1 < d0, "every completion, passed or failed, moves the smoothed in-flight count towards the current count")
 		}
+		// "smoothed": the history outweighs the newest sample - one completion moves the count at
+		// most half of the way to the current count (the code documents a history weight of 0.9),
+		// so a short burst is absorbed instead of being followed at once
+		step := na - before
+		if step < 0 {
+			step = -step
+		}
+		verifAssert(step <= d1, "smoothed: a single completion moves the in-flight average at most half of the way to the current count")
 	}
 	verifAssert(as.flying == 0, "in-flight is back to zero once every admitted request has reported")
 	if start >= 1 {
